@@ -1,4 +1,5 @@
 import HmfVerif.Real.Tactics
+import HmfVerif.Proofs.FilterLemmas
 import HmfVerif.Gen.ExprFilters
 import HmfVerif.Proofs.QuadLemmas
 import HmfVerif.Proofs.AnalysisWindows
@@ -17,6 +18,7 @@ set_option linter.unusedSimpArgs false
 set_option linter.unusedVariables false
 set_option linter.unusedTactic false
 namespace Hmf.C04
+open Hmf.FilterLemmas
 open Real Hmf.Quad Hmf.Analysis
 
 /-! ## the discretised σ -/
@@ -93,32 +95,6 @@ theorem sharpk_window_values :
 
 /-! ## mass ↔ radius maps are exact mutual inverses -/
 
-theorem cube_root_cube (r : ℝ) (hr : 0 ≤ r) : (r ^ 3) ^ ((1:ℝ) / 3) = r := by
-  rw [← Real.rpow_natCast r 3, ← Real.rpow_mul hr]; norm_num
-
-/-- the two round trips on explicit real expressions (the documented closed forms) -/
-theorem tophat_rt_real (r d : ℝ) (hd : 0 < d) (hr : 0 ≤ r) :
-    (3 * (4 * π * r ^ 3 * d / 3) / (4 * π * d)) ^ ((1:ℝ) / 3) = r := by
-  have hp : (0:ℝ) < π := Real.pi_pos
-  have : 3 * (4 * π * r ^ 3 * d / 3) / (4 * π * d) = r ^ 3 := by field_simp
-  rw [this]
-  exact cube_root_cube _ hr
-
-theorem gaussian_rt_real (r d : ℝ) (hd : 0 < d) (hr : 0 ≤ r) :
-    ((2 * π) ^ ((3:ℝ) / 2) * r ^ 3 * d / d) ^ ((1:ℝ) / 3) / Real.sqrt (2 * π) = r := by
-  have hp : (0:ℝ) < π := Real.pi_pos
-  have h2p : (0:ℝ) ≤ 2 * π := by positivity
-  have e1 : ((2 * π : ℝ) ^ ((3:ℝ) / 2)) = (Real.sqrt (2 * π)) ^ 3 := by
-    have : ((3:ℝ) / 2) = (1/2) * 3 := by norm_num
-    rw [this, Real.rpow_mul h2p, ← Real.sqrt_eq_rpow]
-    norm_num
-  rw [e1]
-  have e2 : (Real.sqrt (2 * π)) ^ 3 * r ^ 3 * d / d = (Real.sqrt (2 * π) * r) ^ 3 := by
-    field_simp
-  rw [e2, cube_root_cube _ (by positivity)]
-  have hs : 0 < Real.sqrt (2 * π) := Real.sqrt_pos.mpr (by positivity)
-  field_simp
-
 /-- TopHat: r ↦ m ↦ r -/
 theorem tophat_roundtrip (hρ : 0 < ρ "rho_mean") (hr : 0 ≤ ρ "r") :
     evalR opq (Function.update ρ "m" (evalR opq ρ Gen.Filters.TopHat_radius_to_mass)) Gen.Filters.TopHat_mass_to_radius = ρ "r" := by
@@ -134,6 +110,17 @@ theorem gaussian_roundtrip (hρ : 0 < ρ "rho_mean") (hr : 0 ≤ ρ "r") :
   simp only [Function.update_apply, String.reduceEq, if_false, if_true, zpow_ofNat]
   refine Eq.trans ?_ (gaussian_rt_real (ρ "r") (ρ "rho_mean") hρ hr)
   expr_finish
+/-- SharpK (and SharpKEllipsoid, which inherits both maps): r ↦ m ↦ r for every positive scale parameter `c` -/
+theorem sharpk_roundtrip (hρ : 0 < ρ "rho_mean") (hc : 0 < ρ "p.c") (hr : 0 ≤ ρ "r") :
+    evalR opq (Function.update ρ "m" (evalR opq ρ Gen.Filters.SharpK_radius_to_mass)) Gen.Filters.SharpK_mass_to_radius = ρ "r" := by
+  simp only [Gen.Filters.SharpK_radius_to_mass, Gen.Filters.SharpK_mass_to_radius]; expr_unfold; push_cast
+  simp only [Function.update_apply, String.reduceEq, if_false, if_true, zpow_ofNat]
+  refine Eq.trans ?_ (sharpk_rt_real (ρ "r") (ρ "rho_mean") (ρ "p.c") hρ hc hr)
+  expr_finish
+
+theorem sharpk_ellipsoid_inherits_maps :
+    Gen.Filters.SharpKEllipsoid_radius_to_mass = Gen.Filters.SharpK_radius_to_mass ∧
+    Gen.Filters.SharpKEllipsoid_mass_to_radius = Gen.Filters.SharpK_mass_to_radius := ⟨rfl, rfl⟩
 end
 
 /-- every window and mass↔radius map is elementwise: σ(R) on a vector of radii is row-local -/
